@@ -248,7 +248,7 @@ func c15Classes(quick bool) []*lexref.Class {
 	var items []lexref.ClassItem
 	pts := c15Items
 	if quick {
-		pts = []int{0, '\n', '-', '\\', 'a', 'b', 0x80, 0xFFFD, 0x10FFFF}
+		pts = []int{0, 1, '\n', '-', '\\', 'a', 'b', 0x80, 0xFFFD, 0x10FFFE, 0x10FFFF} // both edges with their neighbours: an off-by-one at 0 or U+10FFFF needs a class ending one short of the edge
 	}
 	for i, lo := range pts {
 		items = append(items, lexref.Ch(lo))
